@@ -73,4 +73,17 @@ CHECKS = {
         ref="§4 C02",
         note=_NOTE + " fp_smb_binar/fp_smb_divst are driven at 64-bit digits only (their signed-state arithmetic is not 8-bit clean); ARITH=easy only.",
         technique="TLC model checking of transcribed Montgomery/conditional-correction algorithms + TLC trace validation of recorded fp calls against the Z/pZ spec"),
+    "C18": dict(
+        text="Every parameter id accepted by ep_param_set in the built configurations (six prime curves incl. two BN pairing "
+             "sets in the 256-bit build; thorough: the 381- and 255-bit builds and another coordinate system) is dumped "
+             "through the getters and TLC evaluates the relations of model/ParamSpec on the dump with BigNat/Curve/Tower "
+             "arithmetic whose definitions are themselves model-checked (MCCurve, MCTower): modulus prime, Montgomery and "
+             "residue constants, generator on curve, order prime and annihilating, h*r the unique curve order in the Hasse "
+             "interval, cofactor clearing, coefficient-class flags, comb generator table entries, beta^3=1, lambda^2+lambda+1=0, "
+             "psi(G)=[lambda]G, GLV basis in the lattice with determinant r and short decompositions, BN family polynomials, "
+             "embedding degree minimal, tower non-residues define fields, twist coefficients/generator/order/cofactor, "
+             "Frobenius = [p] on G2, advertised security level.",
+        ref="§4 C18",
+        note=_NOTE + " Primality of 256-bit values rests on the accelerator's isProbablePrime(128). Binary-curve and Edwards parameter sets are checked under C16/C17.",
+        technique="TLC evaluation of the parameter-set relations (ParamSpec) on getter dumps of every accepted id"),
 }
